@@ -23,7 +23,9 @@ def model_check(run: Run, tier: str) -> None:
 def relevant(prop: str, clause: str, op: dict) -> bool:
     if prop == "C09":
         # "deeper selectors fail when the layer does not exist" is C09's own wording
-        return clause.startswith("C09_") or clause == "C08_Loud:no_layer" or (op["sel"] > 0 and clause in ("C05_Valid", "C05_Shape"))
+        # "@name reads and WRITES the innermost let": the effect of a scoped edit on its own layer is C09's business as well
+        return clause.startswith("C09_") or clause == "C08_Loud:no_layer" or \
+            (op["sel"] > 0 and clause in ("C05_Valid", "C05_Shape", "C05_Effect"))
     return clause.startswith(PREFIX[prop])
 
 
